@@ -1035,6 +1035,11 @@ class SyncObj(object):
                 success = message['success']
 
                 currentNodeIdx = nextNodeIdx - 1
+                # A reply to an append_entries of an earlier term of ours (delayed on the connection while
+                # other nodes were leading) describes the follower's log of that time, the positions may
+                # hold other entries now. Replies of older versions carry no term.
+                if message.get('term', self.__raftCurrentTerm) != self.__raftCurrentTerm:
+                    reset = success = False
                 if reset:
                     self.__raftNextIndex[node] = nextNodeIdx
                 if success:
@@ -1064,6 +1069,7 @@ class SyncObj(object):
             'next_node_idx': nextNodeIdx,
             'reset': reset,
             'success': success,
+            'term': self.__raftCurrentTerm,
         })
 
     def __generateRaftTimeout(self):
